@@ -29,10 +29,14 @@ func runChild(sec *Section, body func(*X), o Opts) {
 	idx, _ := strconv.Atoi(parts[0])
 	n, _ := strconv.Atoi(parts[1])
 	start := time.Now()
+	crashFile = os.Getenv("VERIF_CHILD_OUT") + ".cur"
 	frontier := [][]int{nil}
 	for round := 0; round < 8 && len(frontier) < 16*n && len(frontier) > 0; round++ {
 		var next [][]int
 		for _, pre := range frontier {
+			if o.CrashTrace {
+				_ = os.WriteFile(crashFile, []byte(fmt.Sprint(pre)), 0o644)
+			}
 			x := runBody(sec, body, pre, false)
 			if idx == 0 {
 				sec.absorb(x)
@@ -80,6 +84,7 @@ func runParent(sec *Section, o Opts) {
 	var wg sync.WaitGroup
 	results := make([]*childResult, n)
 	errsCh := make([]string, n)
+	crashes := make([]*Failure, n)
 	for i := 0; i < n; i++ {
 		wg.Add(1)
 		go func(i int) {
@@ -93,6 +98,15 @@ func runParent(sec *Section, o Opts) {
 			b, err := cmd.CombinedOutput()
 			data, rerr := os.ReadFile(out)
 			if rerr != nil {
+				if cur, cerr := os.ReadFile(out + ".cur"); cerr == nil && o.CrashTrace {
+					// the worker process died while executing this prefix: that is an observable crash of the code under test
+					var pre []int
+					for _, f := range strings.Fields(strings.Trim(string(cur), "[]")) {
+						v, _ := strconv.Atoi(f)
+						pre = append(pre, v)
+					}
+					crashes[i] = &Failure{Key: "process-crash", Msg: "the worker process was killed while executing this choice sequence (fatal panic outside any recoverable goroutine / runtime throw):\n" + crashExcerpt(string(b)), Choices: pre, Labels: []string{fmt.Sprint(pre)}}
+				}
 				errsCh[i] = fmt.Sprintf("shard %d produced no result (%v): %s", i, err, tail(string(b), 600))
 				return
 			}
@@ -109,7 +123,12 @@ func runParent(sec *Section, o Opts) {
 	seenFail := map[string]bool{}
 	for i, r := range results {
 		if r == nil {
-			HarnessFail("section %s: %s", o.Name, errsCh[i])
+			if crashes[i] != nil {
+				sec.fails = append(sec.fails, *crashes[i])
+				sec.Notes = append(sec.Notes, fmt.Sprintf("shard %d crashed; its remaining subtrees were not explored", i))
+			} else {
+				HarnessFail("section %s: %s", o.Name, errsCh[i])
+			}
 			capHit = true
 			continue
 		}
@@ -149,6 +168,27 @@ func runParent(sec *Section, o Opts) {
 	if capHit {
 		sec.Cap = fmt.Sprintf("time budget %s hit in some shard; %d subtrees not expanded", o.Budget, sec.Abandoned)
 	}
+}
+
+func crashExcerpt(out string) string {
+	i := strings.Index(out, "panic:")
+	if j := strings.Index(out, "fatal error:"); j >= 0 && (i < 0 || j < i) {
+		i = j
+	}
+	if i < 0 {
+		return tail(out, 800)
+	}
+	lines := strings.Split(out[i:], "\n")
+	var keep []string
+	for _, l := range lines {
+		if strings.Contains(l, "panic:") || strings.Contains(l, "fatal error:") || strings.Contains(l, "bron-crypto") || strings.Contains(l, ".go:") {
+			keep = append(keep, strings.TrimSpace(l))
+		}
+		if len(keep) >= 14 {
+			break
+		}
+	}
+	return strings.Join(keep, "\n")
 }
 
 func tail(s string, n int) string {
